@@ -552,6 +552,36 @@ def readerViewFull (height : Nat) (cachedHeader : Option Nat) (s : Store) (hashO
   if snapshot.length > 0 then some snapshot
   else (emptyBlockDiff hashOf (height + 1)).map fun d => readerView height cachedHeader s d
 
+/-! ### `PreConfirmedChain` read by read (round 5)
+
+The method reads the canonical chain up to four times — `Height()`, the atomic load of the storage,
+`HeadsHeader()`, `BlockHeaderHashByNumber(head+1-10)` — with nothing held in between: the head may
+advance or revert between any two of them. `readerViewFull` above is the special case in which both
+height reads see the same head. Every read can also fail (`Height()` / `HeadsHeader()` on a chain
+without a head: `db.ErrKeyNotFound`). -/
+
+inductive ChainErr | height | header | blockHash
+  deriving DecidableEq, Repr
+
+/-- `Synchronizer.PreConfirmedChain()`: `height` = what `Height()` answers (`none`: error), `s` = the
+storage at the moment of `SnapshotForBlock`, `headNum` = the number of `HeadsHeader()` at the moment
+the fallback is built (`none`: error), `hashOf` = `BlockHeaderHashByNumber`. `height + 1` /
+`latestHeader.Number + 1` wrap only at a canonical height of `2^64-1`. -/
+def preConfirmedChain (height : Option Nat) (s : Store) (headNum : Option Nat) (hashOf : Nat → Option Felt) :
+    Except ChainErr Reader :=
+  match height with
+  | none => .error .height
+  | some h =>
+    let snapshot := snapshotFor s (h + 1)
+    if snapshot.length > 0 then .ok snapshot
+    else
+      match headNum with
+      | none => .error .header
+      | some hd =>
+        match emptyBlockDiff hashOf (hd + 1) with
+        | none => .error .blockHash
+        | some d => .ok { nodes := [emptyPreConfirmedFor hd d], length := 1 }   -- `NewChain(&emptyPreConfirmed)`
+
 /-! ## Lookups on a view -/
 
 /-- `ChainReader.TransactionByHash` (none = `ErrTransactionNotFound`) -/
